@@ -466,6 +466,14 @@ func (c *Client) monitor(ctx context.Context) {
 						}
 						dlog.Printf("namespaces updated")
 
+						// the session and with it the subscriptions are still
+						// alive on the server: ask for the notifications that
+						// were missed and recreate a subscription only where
+						// that fails.
+						subsToRepublish = c.SubscriptionIDs()
+						subsToRecreate = nil
+						availableSeqs = map[uint32][]uint32{}
+
 						action = restoreSubscriptions
 
 					case recreateSession:
